@@ -11,50 +11,80 @@ import (
 	"github.com/wrgl/wrgl/pkg/objects"
 )
 
-func SeekCommonAncestor(db objects.Store, commits ...[]byte) (baseCommit []byte, err error) {
-	n := len(commits)
-	qs := make([]*CommitsQueue, n)
-	bases := make([][]byte, n)
-	for i, sum := range commits {
-		qs[i], err = NewCommitsQueue(db, [][]byte{sum})
-		if err != nil {
-			return
-		}
-		bases[i] = sum
+// ancestorsOf returns sums of all ancestors of given commits (the commits
+// themselves included)
+func ancestorsOf(db objects.Store, commits ...[]byte) (map[string]*objects.Commit, error) {
+	q, err := NewCommitsQueue(db, commits)
+	if err != nil {
+		return nil, err
 	}
+	m := map[string]*objects.Commit{}
 	for {
-		for i := len(bases) - 1; i >= 0; i-- {
-			for j := len(bases) - 1; j >= 0; j-- {
-				if i == j {
-					continue
-				}
-				if qs[j].Seen(bases[i]) {
-					// remove j element
-					copy(bases[j:], bases[j+1:])
-					bases = bases[:len(bases)-1]
-					copy(qs[j:], qs[j+1:])
-					qs = qs[:len(qs)-1]
-					if i > j {
-						i--
-					}
-				}
-			}
-		}
-		if len(bases) == 1 {
+		sum, com, err := q.PopInsertParents()
+		if errors.Is(err, io.EOF) {
 			break
 		}
-		eofs := 0
-		for i, q := range qs {
-			bases[i], _, err = q.PopInsertParents()
-			if errors.Is(err, io.EOF) {
-				eofs++
-			} else if err != nil {
-				return nil, err
+		if err != nil {
+			return nil, err
+		}
+		m[string(sum)] = com
+	}
+	return m, nil
+}
+
+// SeekCommonAncestor returns the commit to use as base when merging commits:
+// an ancestor (or one of the commits itself) of every given commit that is
+// not an ancestor of another such commit.
+func SeekCommonAncestor(db objects.Store, commits ...[]byte) (baseCommit []byte, err error) {
+	var common map[string]*objects.Commit
+	for i, sum := range commits {
+		m, err := ancestorsOf(db, sum)
+		if err != nil {
+			return nil, err
+		}
+		if i == 0 {
+			common = m
+			continue
+		}
+		for k := range common {
+			if _, ok := m[k]; !ok {
+				delete(common, k)
 			}
 		}
-		if eofs == len(qs) {
-			return nil, fmt.Errorf("common ancestor commit not found")
+	}
+	if len(common) == 0 {
+		return nil, fmt.Errorf("common ancestor commit not found")
+	}
+	// a commit that is ancestor of all the others is the base
+	for _, sum := range commits {
+		if _, ok := common[string(sum)]; ok {
+			return sum, nil
 		}
 	}
-	return bases[0], nil
+	// discard common ancestors that are ancestors of other common ancestors
+	candidates := map[string]*objects.Commit{}
+	for k, com := range common {
+		candidates[k] = com
+	}
+	for k, com := range common {
+		if _, ok := candidates[k]; !ok || len(com.Parents) == 0 {
+			continue
+		}
+		m, err := ancestorsOf(db, com.Parents...)
+		if err != nil {
+			return nil, err
+		}
+		for a := range m {
+			delete(candidates, a)
+		}
+	}
+	// in case there are more than one, pick the latest (break tie with sum)
+	var base *objects.Commit
+	for k, com := range candidates {
+		if base == nil || com.Time.After(base.Time) || (com.Time.Equal(base.Time) && k < string(baseCommit)) {
+			base = com
+			baseCommit = []byte(k)
+		}
+	}
+	return baseCommit, nil
 }
